@@ -468,8 +468,7 @@ theorem response_roundtrip_trailers (dn : Bool) (maxBody : Nat) (e : End) (r : W
     cases hb : r.base.body with
     | fixed b => rw [hb] at hch; simp at hch
     | chunked rs =>
-    have hne : r.base.status ≠ 100 := by
-      intro e100; have := p.skip; rw [e100] at this; exact absurd this (by decide)
+    have hne : isInterim r.base.status = false := notInterim_of_notSkip r.base.status p.skip
     have hnames : (r.trailers.map (·.1)).isEmpty = false := by
       cases ht : r.trailers with
       | nil => exact absurd ht hnil
